@@ -385,7 +385,10 @@ func cmdCheck(id, tier string) int {
 		idx := crashes[0]
 		rp := writeCrashReplay(p, tier, master, idx)
 		how := replayCrashes(rp)
-		if how == "crash" || (how == "hang" && id == "C20") {
+		// a hang that reproduces in a fresh process from the same seed is real blocking the
+		// simulator cannot see; C20 ("never hangs") and C19 ("no deadlock, no wake-up lost",
+		// "unlocking a key that is not held panics" - it does not wait) state that it must not happen
+		if how == "crash" || (how == "hang" && (id == "C20" || id == "C19")) {
 			fmt.Printf("VIOLATION property=%s replay=%s\n", id, rp)
 			fmt.Printf("  class=%s/process-%s: the worker process died or hung (fatal runtime error / real blocking) at run index %d\n", id, how, idx)
 			unknown = append(unknown, id+"/process-"+how)
@@ -785,6 +788,12 @@ func determinismSample(id string, master uint64, tmp string) (bool, string) {
 			"-from", "0", "-to", strconv.Itoa(n), "-step", "1", "-out", out, "-hashes")
 		cmd.Env = append(os.Environ(), "GOMAXPROCS="+procs, "VERIF_SCRATCH_DIR="+tmp)
 		if err := cmd.Run(); err != nil {
+			if ee, ok := err.(*exec.ExitError); ok && ee.ExitCode() == 4 && (id == "C20" || id == "C19") {
+				// the watchdog fired inside the sample: the batch itself will meet the same run,
+				// re-execute it in a fresh process and report the hang as what it is
+				determinismEvidence = map[string]interface{}{"skipped": "a run of the sample hung (watchdog); left to the batch"}
+				return true, ""
+			}
 			return false, fmt.Sprintf("determinism sample: worker failed: %v", err)
 		}
 		b, _ := os.ReadFile(out)
